@@ -110,6 +110,30 @@ static void heap_thread(int t, unsigned long seed, int nops, bool exits_early) {
     }
     { rml::internal::TLSData* tls = rml::internal::defaultMemPool->getTLS(/*create=*/false); if (tls) mallocThreadShutdownNotification(tls); }   // thread exit with live blocks: its slabs become orphans that the other threads adopt / free into
 }
+// orphaned slabs (mode "orphan", N = 4): thread 0 allocates a few small objects and exits with them live (its slabs go to the orphan lists); then, all at once,
+// threads 1 and 3 allocate from the same size classes (each adopts an orphaned slab: LifoList::pop) while thread 2 runs the clean-all-buffers command
+// (OrphanedBlocks::cleanup -> LifoList::grab, privatisation of the public free lists, empty slabs go back to the backend).  A slab must end up with ONE owner.
+static int g_phase;
+static void orphan_thread(int t, unsigned long seed) {
+    std::mt19937_64 rng(seed * 7919u + t * 104729u);
+    static const size_t CL[2] = {64, 1024};
+    auto alloc = [&](int slot, size_t size) { Blk& b = TAB[slot]; int id = ++g_next_id; void* p = scalable_malloc(size); if (!p) { ev("Null", {{"t", t}}); return; }
+        bool okal = ((uintptr_t)p % nat_align(size)) == 0, okms = scalable_msize(p) >= size; fill(p, size, id);
+        ev("A", {{"t", t}, {"id", id}, {"al", okal}, {"ms", okms}, {"ze", 1}, {"k", 0}, {"sz", (long long)size}, {"ra", 0}}, {{"lo", (u64)(uintptr_t)p}, {"hi", (u64)(uintptr_t)p + size}});
+        b.p = p; b.size = size; b.id = id; b.align = 0; };
+    auto release = [&](int slot) { Blk& b = TAB[slot]; if (!b.p) return; ev("F", {{"t", t}, {"id", b.id}, {"pt", check(b.p, b.size, b.id)}}); scalable_free(b.p); b.p = nullptr; };
+    if (t == 0) { for (int i = 0; i < 4; i++) alloc(i, CL[i & 1]); if (seed & 1) release(0);       // (odd seeds: one object freed by its owner before the exit)
+    } else {
+        while (!__atomic_load_n(&g_phase, __ATOMIC_SEQ_CST)) cosched::yield_point();
+        if (t == 2) { for (int i = 0; i < 2; i++) scalable_allocation_command(TBBMALLOC_CLEAN_ALL_BUFFERS, nullptr); }
+        else { int base = t == 1 ? 4 : 12; for (int i = 0; i < 6; i++) alloc(base + i, CL[(i + (rng() & 1)) & 1]);
+            if (t == 3 && (seed & 2)) release(1);                                                    // a foreign free into the orphaned / adopted slab
+            for (int i = 0; i < 6; i++) { Blk& b = TAB[base + i]; if (b.p) ev("C", {{"t", t}, {"id", b.id}, {"pt", check(b.p, b.size, b.id)}}); }
+            for (int i = 0; i < 6; i += 2) release(base + i); for (int i = 0; i < 3; i++) alloc(base + 2 * i, CL[i & 1]); }
+    }
+    { rml::internal::TLSData* tls = rml::internal::defaultMemPool->getTLS(/*create=*/false); if (tls) mallocThreadShutdownNotification(tls); }
+    if (t == 0) __atomic_store_n(&g_phase, 1, __ATOMIC_SEQ_CST);
+}
 struct Stats { long paths, steps, stuck; };
 template <class Fn> static int forked(const char* tmp, FILE* out, bool& first, int watchdog, Fn fn) {
     pid_t pid = fork();
@@ -123,16 +147,17 @@ template <class Fn> static int forked(const char* tmp, FILE* out, bool& first, i
 #include <sys/mman.h>
 static int run_heap(int argc, char** argv) {
     FILE* out = fopen(argv[2], "w"); int nseeds = atoi(argv[3]); unsigned long seed0 = strtoul(argv[4], nullptr, 10); int N = atoi(argv[5]), nops = atoi(argv[6]);
+    bool orphan = nops == 0;                    // nops = 0 selects the orphaned-slab scenario (N must be 4)
     Stats* st = (Stats*)::mmap(nullptr, sizeof(Stats), PROT_READ | PROT_WRITE, MAP_SHARED | MAP_ANONYMOUS, -1, 0); memset(st, 0, sizeof *st);
     vh::Timer tm; static const int dens[8] = {1, 3, 10, 40, -1, -2, -3, -5}; long crashed = 0; std::string tmp = std::string(argv[2]) + ".child"; bool first = true;
     for (int c0 = 0; c0 < nseeds && crashed < 4 && st->stuck < 6; c0 += 10) {
         crashed += forked(tmp.c_str(), out, first, 300, [&] {
             scalable_free(scalable_malloc(8));                                      // allocator start-up outside scheduler control
             for (int s = c0; s < c0 + 10 && s < nseeds; s++) {
-                TR.begin_exec(); TR.emit("{\"e\":\"Scenario\",\"name\":\"heap%d\"}", N);
-                for (auto& b : TAB) b = Blk(); g_next_id = 0;
+                TR.begin_exec(); if (orphan) TR.emit("{\"e\":\"Scenario\",\"name\":\"orphan\"}"); else TR.emit("{\"e\":\"Scenario\",\"name\":\"heap%d\"}", N);
+                for (auto& b : TAB) b = Blk(); g_next_id = 0; g_phase = 0;
                 Sched S; S.stall_limit = 400000; S.log_schedule = false; focus_only(false);
-                S.spawn(N, [&](int t) { heap_thread(t, seed0 + s, nops, N > 1 && t == 0); });
+                S.spawn(N, [&](int t) { if (orphan) orphan_thread(t, seed0 + s); else heap_thread(t, seed0 + s, nops, N > 1 && t == 0); });
                 int rc = S.run_random(seed0 + s, 40000000, dens[s % 8]);
                 st->steps += S.steps; ++st->paths;
                 // the remaining blocks are freed by the harness's main thread (a thread that allocated none of them)
